@@ -2,8 +2,8 @@
 // C34 — bounded second line behind the Verus unit `dns_jitter` (NOT a proof): add_jitter on every delay of the bound with
 // the random source driven through its extreme and middle values.
 #![allow(dead_code, unused_imports, unused_variables, unused_macros)]
-macro_rules! trace { ($($t:tt)*) => {}; }
-macro_rules! debug { ($($t:tt)*) => {}; }
+macro_rules! trace { ($($t:tt)*) => { () }; }
+macro_rules! debug { ($($t:tt)*) => { () }; }
 use std::cell::Cell;
 use std::time::Duration;
 thread_local! { static RND: Cell<u64> = Cell::new(0); }
